@@ -294,6 +294,9 @@ def _instr_log_dir() -> str:
             import shutil
             _LOGDIR = tempfile.mkdtemp(prefix="verif_instrlog_")
             atexit.register(shutil.rmtree, _LOGDIR, True)
+            if os.environ.get("VERIF_DEBUG"):
+                import traceback
+                open("/tmp/verif_instrlog_who.txt", "a").write("".join(traceback.format_stack()[-8:]) + "\n----\n")
     return _LOGDIR
 
 
